@@ -100,6 +100,29 @@ def _main(pid, args, seed, t0):
     if aud["driver_ok"]:
         ctx["driver"] = common.Driver()
     payloads = []
+    if hasattr(mod, "run_case"):
+        # An exception that escapes a case from INSIDE the implementation (innermost frames in the library under test) is a
+        # finding about the implementation on an input the check considers legal - not an infrastructure failure of the
+        # check: report it as a violation with the case as replay.  (On the unchanged tree no case raises.)
+        import traceback
+        _orig_run_case = mod.run_case
+        _repo_root = os.path.realpath(os.environ.get("MELLON_REPO", "/repo"))
+
+        def _guarded_run_case(ctx_, res_, p_):
+            try:
+                return _orig_run_case(ctx_, res_, p_)
+            except Exception as exc:  # noqa
+                frames = traceback.extract_tb(exc.__traceback__)
+                inner = [f for f in frames if os.path.realpath(f.filename).startswith(_repo_root + os.sep)]
+                last_harness = max((i for i, f in enumerate(frames) if os.sep + "harness" + os.sep in f.filename), default=-1)
+                if inner and frames.index(inner[-1]) > last_harness:
+                    where = "%s:%s" % (os.path.relpath(inner[-1].filename, _repo_root), inner[-1].name)
+                    res_.oracle_fail(f"the implementation raised {type(exc).__name__} on an input of the check ({where})",
+                                     p_, detail={"error": str(exc)[:300], "where": where},
+                                     signature=f"{pid}:impl-raises:{type(exc).__name__}:{inner[-1].name}")
+                    return None
+                raise
+        mod.run_case = _guarded_run_case
     if args.replay:
         with open(args.replay if os.path.isabs(args.replay) else os.path.join(VERIF, args.replay)) as f:
             rp = json.load(f)
